@@ -390,7 +390,17 @@ def _run_history(case, ctx):
                 ow = r.random() < 0.35
                 rec.update(name=spec["name"], overwrite=ow, props=spec["props"])
                 expected = model.item_to_db("materials", spec["name"], spec["props"], ow, "material_properties_type")
+                known_before = sum(1 for m_ in pygaps.MATERIAL_LIST if m_.name == spec["name"])
                 out = _call(S.material_to_db, _build_mat(spec), db_path=db, overwrite=ow, verbose=False)
+                if ow and out[0] == "ok" and expected == "ok" and known_before <= 1:
+                    # retrieval re-attaches the material a name resolves to in the session (recorded finding): an overwrite that
+                    # succeeded must at least leave the *new* description there, not the one it replaced
+                    now = [m_ for m_ in pygaps.MATERIAL_LIST if m_.name == spec["name"]]
+                    ctx.case(["mat-overwrite-session", spec["name"], sorted(spec["props"])])
+                    ctx.count("session_registry", "material-overwrite/checked")
+                    if len(now) != 1 or dict(now[0].properties) != dict(spec["props"]):
+                        ctx.violation("mat_to/overwrite/session-keeps-the-replaced-description", "after a successful overwrite the session still resolves the material's name to the description that was replaced",
+                                      name=spec["name"], uploaded=spec["props"], session=[dict(m_.properties) for m_ in now])
             elif op == "ads_del":
                 name = r.choice(ADS_NAMES + ["verif-gas-absent", ADS_NAMES[0].upper(), ADS_NAMES[1].lower()])  # (names are case-sensitive in the store)
                 by_obj = r.random() < 0.5
